@@ -661,3 +661,96 @@ import os as _os                                                         # noqa:
 # backlog on which "put back behind later submissions" shows; it takes minutes, so thorough tier only
 for _n in ((1, 2, 3) if _os.environ.get("VERIF_TIER") == "thorough" else (1, 2)):
     _overflow_contract(_n)
+
+
+# ------------------------------------------------------------------ 5c. the flush for a send queue of ANY length
+#  (loop invariant over a ghost sequence; replaces "bounded: <= 2 queued messages" as the deciding obligation,
+#   the bounded contracts above stay as companions with replayable inputs)
+from pyvc.api import Loop                                                # noqa: E402
+from pyvc.seqs import ElemKind, Field, fold                              # noqa: E402
+from pyvc.spec import seq_snoc, seq_empty, proved                        # noqa: E402
+from contracts.common import AVP_ELEM                                    # noqa: E402
+
+_HDR_FIELDS = {"_version": Field(("bytesn", 1)), "_length": Field(("bytesn", 3)), "_flags": Field(("bytesn", 1)),
+               "_command_code": Field(("bytesn", 3)), "_application_id": Field(("bytesn", 4)),
+               "_hop_by_hop": Field(("bytesn", 4)), "_end_to_end": Field(("bytesn", 4))}
+_QMSG_FIELDS = {"_header": Field(("obj", B.DiameterHeader, _HDR_FIELDS), "idict"),
+                "_avps": Field(("seq", AVP_ELEM), "idict"), "_loaded": Field(("const", False), "idict")}
+# a queued message: a request or an answer (typed cases), any header, any list of AVPs
+QMSG = ElemKind("qmsg", [("request", B.DiameterRequest, _QMSG_FIELDS), ("answer", B.DiameterAnswer, _QMSG_FIELDS)])
+
+wires = fold("wires", wire_bytes, "bytes")          # concatenated serialisations of a sequence of queued messages
+
+
+def _flush_assoc_any():
+    a = association(mode=T.Const("SERVER"), recv=T.Sync("queue"), send=T.Sync("queue", tail=T.Seq(QMSG)),
+                    active=T.Const(True))
+    a.idict["pending_requests"] = T.AnyDict()
+    return a
+
+
+def flush_loop_entry(self):
+    q = self._send_messages.st
+    return ghost_set("q0", q["tail"]) and ghost_set("done", seq_empty(q["tail"]))
+
+
+def finv_queue(self, done):
+    q = self._send_messages.st
+    return len(q["items"]) == 0 and ghost_get("q0") == done + q["tail"]
+
+
+def finv_stream(stream, done):
+    return stream == wires(done)
+
+
+def finv_lock(self):
+    return self.lock.st["held"] == True
+
+
+def flush_loop_tail(msg, done):
+    # the iteration ran to its end: `msg` was taken from the head of the queue and appended to the stream
+    return ghost_set("done", seq_snoc(done, msg))
+
+
+def queue_now(self):
+    q = self._send_messages.st
+    return q["items"] + q["tail"]
+
+
+@contract("bromelia.setup.DiameterAssociation.send_message_from_queue", prop="C05", name="flush-any", also=("C07",))
+class _FlushAny:
+    """a send queue holding ANY number of messages (requests and answers of any content and size): the flush
+    serialises a prefix of the queue -- each message as it is NOW: header with the identifiers it holds at
+    this moment, then its AVPs -- in queue order into the ONE stream it hands to the transport; exactly the
+    other messages are still queued, once each, in their order; the prefix is non-empty whenever the queue
+    was (so the head of the queue always makes progress); the association lock is free afterwards"""
+    args = {"self": _flush_assoc_any()}
+    loops = {0: Loop(vars={"stream": T.Bytes(), "msg": T.NoneS, "MESSAGE_LENGTH": T.Int(), "key": T.NoneS,
+                           "held": T.Int()},
+                     heap={"self._send_messages": T.Sync("queue", tail=T.Seq(QMSG)),
+                           "self.pending_requests": T.AnyDict()},
+                     ghost={"done": T.Seq(QMSG)},
+                     inv=[finv_queue, finv_stream, finv_lock], entry=flush_loop_entry, tail=flush_loop_tail)}
+
+    def ensures_prefix_written_in_order_rest_still_queued_in_order(self):
+        log, done = event_log(), ghost_get("done")
+        q = self._send_messages.st
+        return len(log) == 1 and log[0][0] == "wire" and log[0][1] == "rw" and log[0][2] == wires(done) \
+            and ghost_get("q0") == done + queue_now(self) and len(q.get("after") or []) == 0
+
+    def ensures_head_of_the_queue_makes_progress(self):
+        return implies(len(ghost_get("q0")) > 0, len(ghost_get("done")) > 0)
+
+    def ensures_lock_free(self):
+        return self.lock.st["held"] == False
+
+    def exceptional(exc):
+        return False
+
+    samples = 0          # symbolic sequences are not materialised natively; the bounded flush-n contracts are
+
+    # (a negative control over the ghost sequences needs a solver MODEL of symbolic message sequences: 20-30 s
+    # per path in the last stage of the cascade; the control below is decided by evaluation, non-vacuity of the
+    # sequence clauses is the `cover` obligation plus the bounded flush-n contracts with their own controls)
+    def control_lock_still_held(self):
+        return self.lock.st["held"] == True
